@@ -28,6 +28,7 @@ import (
 	"fmt"
 	"math/rand"
 	"strings"
+	"time"
 
 	"github.com/0chain/common/core/util/wmpt"
 	"github.com/fxamacker/cbor/v2"
@@ -411,10 +412,11 @@ func genC10(r *rand.Rand, tier string, idx int) []string {
 
 func init() {
 	register(&Suite{
-		Name: "c10",
-		Rule: "tries of 1..9 keys (32-byte keys with shared prefixes of every length, weights 1..4 determined by the value; in memory, committed at collapse levels -1..5, reloaded); honest proofs of every block, then structured tampering of two kept proofs (re-weighting with constant sum, empty-hash child, sibling swap, substitution from other positions/proofs, drop/duplicate/truncate, bit flips in every field, node-kind substitution); non-trivial = at least 2 mutations and one verified honest proof",
-		Gen:  genC10,
-		Run:  runWmpt,
+		Name:        "c10",
+		Rule:        "tries of 1..9 keys (32-byte keys with shared prefixes of every length, weights 1..4 determined by the value; in memory, committed at collapse levels -1..5, reloaded); honest proofs of every block, then structured tampering of two kept proofs (re-weighting with constant sum, empty-hash child, sibling swap, substitution from other positions/proofs, drop/duplicate/truncate, bit flips in every field, node-kind substitution); non-trivial = at least 2 mutations and one verified honest proof",
+		Gen:         genC10,
+		Run:         runWmpt,
+		CaseTimeout: 3 * time.Minute, // a stalled machine must not look like a hang; a real hang still fails the case
 		DefaultN: func(tier string) int {
 			if tier == "thorough" {
 				return 60000
